@@ -65,8 +65,12 @@ def gen_family(seed, fam):
     shared_slot = r.randrange(nlists)
     if pair is not None and not isinstance(lists[shared_slot], list):
         lists[shared_slot] = []
-    nopts = r.choice([0, 0, 1, 1, 2])
+    nopts = r.choice([0, 1, 1, 1, 2])
     opts = [[r.random() < 0.5 for _ in range(4)] for _ in range(nopts)]
+    if nopts and r.random() < 0.25:
+        # truthy / falsy values that are not bool: an implementation that normalises the object in place shows up
+        o = opts[r.randrange(nopts)]
+        o[r.randrange(4)] = r.choice([1, 0, None, 'yes', ''])
     vary = [s for s in corpus.BOOL_SWITCHES if r.random() < 0.3]
     force_rg = r.random() < 0.6
 
@@ -94,7 +98,7 @@ def gen_family(seed, fam):
             if r.random() < 0.5:
                 c['pl'] = shared_slot if r.random() < 0.5 else r.randrange(nlists)
             x = r.random()
-            if x < 0.5 or (nopts == 0 and x < 0.8):
+            if x < 0.35 or (nopts == 0 and x < 0.8):
                 c['ra'] = 'omit'
             elif nopts and x < 0.85:
                 c['ra'] = {'slot': r.randrange(nopts)}
@@ -145,6 +149,9 @@ def gen_api_spec(seed, index, nhs, tier):
     else:
         ncalls = r.choice([1, 2, 3, 4, 6, 8, 12, 20, 30, 45])
     seq = [r.randrange(len(templates)) for _ in range(ncalls)]
+    if threaded and r.random() < 0.35:
+        # symmetric load: every thread runs the same call (the most direct way for two calls to collide)
+        seq = [seq[0]] * ncalls
     if fam['feeder'] is not None and ncalls >= 2 and r.random() < 0.8:
         i = r.randrange(0, ncalls - 1)
         j = r.randrange(i + 1, ncalls)
@@ -182,14 +189,18 @@ def gen_api_spec(seed, index, nhs, tier):
     }
     if threaded:
         x = rs.random()
-        if x < 0.35:
+        if x < 0.25:
             policy = {'name': 'rand', 'p': rs.choice([1e-3, 1e-2, 1e-2, 0.1, 0.1, 0.5])}
-        elif x < 0.55:
-            policy = {'name': 'rr', 'k': rs.choice([1, 7, 50, 500])}
-        elif x < 0.75:
+        elif x < 0.38:
+            policy = {'name': 'rr', 'k': rs.choice([1, 7, 7, 50, 500])}
+        elif x < 0.5:
             policy = {'name': 'pct', 'd': rs.choice([1, 2, 3])}
-        else:
+        elif x < 0.62:
             policy = {'name': 'phase', 'p': rs.choice([0.2, 0.5, 0.9])}
+        else:
+            # two threads brought to the same phase, then interleaved step by step inside it
+            policy = {'name': 'sync', 'k': rs.randrange(1, 22), 'q': rs.choice([1.0, 1.0, 0.5, 0.2]),
+                      'burst': rs.choice([300, 2000, 2000, 10000, 40000])}
         gran = 'opcode' if rs.random() < (0.10 if tier == 'thorough' else 0.04) else 'line'
         exp = sum(est_steps(sources[c['src']]) for c in calls)
         if gran == 'opcode':
